@@ -16,7 +16,7 @@ from trie.exceptions import InvalidKeyError
 
 from ..ref.bintrie import MALFORMED, MISSING, RefBin, bits_of, resolve
 from ..util import Info, Raised, expect, expect_eq, impl
-from .c12 import BLANK as BLANK_HASH, _conflicts, resolve_arg, resolve_bin_val, strategy as c12_history
+from .c12 import BLANK as BLANK_HASH, _LAST as _C12_LAST, _conflicts, resolve_arg, resolve_bin_val, strategy as c12_history
 
 ID = "C13"
 LEVEL = "exploration"
@@ -132,6 +132,7 @@ def _play(t, model, hist):
 
 def run_case(case):
     info = Info()
+    _C12_LAST["key"] = b"\x12"  # no state carried over from another case
     minimal = len(case["hist"]) % 2 == 1  # every other case lives in a minimal mapping, not a dict
     db = MinimalDB() if minimal else {}
     info.label("minimal-db", minimal)
